@@ -281,3 +281,56 @@ func zzH_C06_readerFuncErr() {
 	_, err2 := r.Read(ctx, frame.Slices(make([]int64, 1), make([]int64, 1)))
 	zz.Assert(err2 == err && calls == before, "the error is sticky and the user function is not called again")
 }
+
+// zzH_C06_writerFuncErr: an error returned by a WriterFunc's write function at
+// any call - also at the call that delivers end-of-stream, alone or together
+// with the last rows - surfaces from Read as a fatal error carrying the user's
+// message (temporary errors stay temporary), and is sticky.
+func zzH_C06_writerFuncErr() {
+	m := zzUpstream(2, 1)
+	temp := zz.AnyBool("temporary")
+	failAt := zz.AnyIntIn("failAtCall", 0, 3)
+	userErr := goerrors.New("zz-user-message")
+	calls, failed, atEOF := 0, false, false
+	type state struct{}
+	op := WriterFunc(zzSrc2(), func(shard int, st state, err error, ks []int64, vs []int64) error {
+		calls++
+		if calls-1 == failAt {
+			failed = true
+			atEOF = err == sliceio.EOF
+			if temp {
+				return errors.E(errors.Temporary, userErr)
+			}
+			return userErr
+		}
+		return nil
+	})
+	r := op.Reader(0, []sliceio.Reader{m})
+	ctx := context.Background()
+	var err error
+	for c := 0; c < 5 && err == nil; c++ {
+		_, err = r.Read(ctx, frame.Slices(make([]int64, 1), make([]int64, 1)))
+	}
+	if !failed {
+		zz.Reach("writer never failed")
+		zz.Assert(err == sliceio.EOF, "a healthy writer sees the stream through to EOF")
+		return
+	}
+	if atEOF {
+		zz.Reach("writer failed at end-of-stream")
+	} else {
+		zz.Reach("writer failed mid-stream")
+	}
+	zz.Assert(err != nil && err != sliceio.EOF, "a write function's error is never dropped, also at end-of-stream")
+	if err == nil || err == sliceio.EOF {
+		return
+	}
+	zz.Assert(strings.Contains(err.Error(), "zz-user-message"), "the error carries the user's message")
+	if temp {
+		zz.Assert(errors.IsTemporary(err), "a temporary writer error stays temporary")
+	} else {
+		zz.Assert(errors.Match(errors.E(errors.Fatal), err), "a plain writer error becomes fatal")
+	}
+	_, err2 := r.Read(ctx, frame.Slices(make([]int64, 1), make([]int64, 1)))
+	zz.Assert(err2 == err, "the error is sticky")
+}
